@@ -393,6 +393,45 @@ def extra_c04_calls(out, rnd, n):
             out.violation("C04.%s:%s@%s" % (r["status"], r["exc"], r["frame"]), c, "phase=%s" % r["phase"])
 
 
+def extension_instances_file(out, rnd, n):
+    """behaviour beyond the listed properties (spec growth): instances_file_input - pass 1 reads class membership from a document
+    of its own (Core!IDoc). Judged like every execution, but what the monitor finds here is only *reported* (evidence key
+    extension_instances_file): no listed property speaks about this input."""
+    cases = []
+    for i in range(n):
+        T = gen.general_graph(rnd, rich_literals=False, bnodes=rnd.random() < .3, max_nodes=6)
+        types = [t for t in T if t[1] == M.RDF_TYPE]
+        if not types:
+            continue
+        inst = rnd.sample(types, rnd.randint(1, len(types)))
+        subs = sorted({s for s, _p, _o in T})
+        if rnd.random() < .4:           # a membership the graph itself does not state
+            inst.append((rnd.choice(subs), M.RDF_TYPE, M.iri(M.EX + "Extra")))
+        if rnd.random() < .3:           # the instances file may carry other triples: only typing triples matter
+            inst.append((rnd.choice(subs), M.EX + "p0", M.lit("noise")))
+        rnd.shuffle(inst)
+        cfg = gen.switches(rnd)
+        classes = sorted({o[1] for _s, _p, o in inst if _p == M.RDF_TYPE})
+        if rnd.random() < .4:
+            cfg["mode"] = "classes"
+            cfg["targets"] = rnd.sample(classes, rnd.randint(1, len(classes)))
+        if rnd.random() < .3:
+            cfg["cap"] = rnd.randint(1, 2)
+        c = gen.case("c10i%d" % i, T, **cfg)
+        c["cfg"]["instDoc"] = M.to_json_graph(inst)
+        cases.append(c)
+    results = runner.run_cases(cases)
+    verdicts, _stats = judge(cases, results, ["C01", "C02", "C10", "drift"])
+    found = {}
+    for c, r in zip(cases, results):
+        cl = ["crash:%s@%s" % (r["exc"], r["frame"])] if r["status"] != "ok" else verdicts[c["id"]]["clauses"]
+        for x in cl:
+            found[x] = found.get(x, 0) + 1
+            if not x.startswith("KF.") and len(out.notes.setdefault("extension_instances_file_cases", [])) < 3:
+                out.notes["extension_instances_file_cases"].append({"clause": x, "case": c})
+    out.notes["extension_instances_file"] = {"executions": len(cases), "clauses_reported_not_judged": found}
+
+
 def check_c10(out, tier):
     rnd = random.Random(common.seed() + 10)
     mine = lambda c: c.startswith("C10.") or c == "C01.header"
@@ -427,6 +466,7 @@ def check_c10(out, tier):
         cases.append(gen.case("c10g%d" % i, T, **cfg))
     run_and_judge(out, cases, ["C10", "C01"], mine)
     pinned_cases(out, "C10", ["C10", "C01"], mine)
+    extension_instances_file(out, rnd, 40 * k)
     return ("general graphs x instantiation property in {rdf:type, custom, P31} x {all classes, subsets of classes in "
             "three spellings, shape maps (node / FOCUS patterns in both positions with IRIs, prefixed names, 'a', "
             "wildcards / SPARQL selectors; labels as IRIs or prefixed names; fixed and JSON syntax), all classes + "
